@@ -5,19 +5,20 @@
   `_build_face_face_connectivity` and `_construct_hole_edge_indices` for EVERY face-node /
   face-edge table meeting the decidable precondition `Incidence.Pre` (valid entries, every edge
   in one or two faces), of any size, padding layout and numbering.
+
+  Last section: the driver's efficient decision procedure (`Lemmas/C03Fast.lean`: one run of each
+  builder + row-by-row comparison up to what the specification leaves free) is PROVED equal to the
+  specification's own Booleans — `preFast_eq`, `specFast_eq_spec`, `failingFast_eq` — so meshes of
+  any size (file-supplied MPAS tables, big generated meshes) are judged by `Incidence.Spec` itself.
 -/
 import UxVerif.Lemmas.Keyed
 import UxVerif.Lemmas.Pipeline
+import UxVerif.Lemmas.C03Basic
+import UxVerif.Lemmas.C03Transport
+import UxVerif.Lemmas.C03Fast
 
 namespace UxVerif.C03
 open UxVerif UxVerif.Incidence
-
-theorem FILL_neg : FILL < 0 := by decide
-
-theorem ofNat_ne_fill (k : Nat) : Int.ofNat k ≠ FILL := by
-  have h := FILL_neg
-  have : (0 : Int) ≤ Int.ofNat k := Int.natCast_nonneg k
-  omega
 
 theorem foldl_snoc (c l : List Int) : l.foldl (fun c f => c ++ [f]) c = c ++ l := by
   induction l generalizing c with
@@ -111,51 +112,6 @@ theorem nodeFace_ok {n : Nat} {t FE : Table} {N : List Nat} {nEdge : Nat}
       exact ⟨Int.natCast_nonneg f, by exact Int.ofNat_lt.mpr hf⟩
 
 /-! ### edge_face_connectivity -/
-
-theorem mem_efEvents (FE : Table) (N : List Nat) (e : Nat) (x : Int) :
-    (e, x) ∈ efEvents FE N ↔ ∃ f, f < FE.length ∧ x = Int.ofNat f ∧
-      ∃ y ∈ faceEdgesOf FE N f, y.toNat = e := by
-  unfold efEvents
-  simp only [List.mem_flatMap, List.mem_range, List.mem_map, Prod.mk.injEq]
-  constructor
-  · rintro ⟨f, hf, y, hy, h1, h2⟩
-    exact ⟨f, hf, h2.symm, y, hy, h1⟩
-  · rintro ⟨f, hf, h2, y, hy, h1⟩
-    exact ⟨f, hf, y, hy, h1, h2.symm⟩
-
-/-- under the precondition, the faces fed to edge `e` are exactly the faces having `e` -/
-theorem mem_feed_ef {n : Nat} {t FE : Table} {N : List Nat} {nEdge : Nat}
-    (h : Pre n t FE N nEdge) (e : Nat) (x : Int) :
-    x ∈ feed (efEvents FE N) e ↔
-      ∃ f, f < FE.length ∧ x = Int.ofNat f ∧ Int.ofNat e ∈ faceEdgesOf FE N f := by
-  rw [mem_feed, mem_efEvents]
-  constructor
-  · rintro ⟨f, hf, hx, y, hy, hye⟩
-    refine ⟨f, hf, hx, ?_⟩
-    have hy0 := (h.2.1 f hf y hy).1
-    have : y = Int.ofNat e := by
-      have := Int.toNat_of_nonneg hy0; simp only [Int.ofNat_eq_natCast]; omega
-    rw [← this]; exact hy
-  · rintro ⟨f, hf, hx, hmem⟩
-    exact ⟨f, hf, hx, Int.ofNat e, hmem, by simp⟩
-
-theorem edgeFace_length (FE : Table) (N : List Nat) (nEdge : Nat) :
-    (edgeFace FE N nEdge).length = nEdge := by
-  unfold edgeFace; rw [keyedFold_length]; simp
-
-theorem edgeFace_get (FE : Table) (N : List Nat) (nEdge e : Nat) (he : e < nEdge) :
-    (edgeFace FE N nEdge).getD e (FILL, FILL)
-      = (feed (efEvents FE N) e).foldl slotUpd (FILL, FILL) := by
-  have : (edgeFace FE N nEdge)[e]? = some ((feed (efEvents FE N) e).foldl slotUpd (FILL, FILL)) := by
-    unfold edgeFace
-    rw [keyedFold_get]; simp [he]
-  simp [List.getD, this]
-
-theorem slot_one (a : Int) : [a].foldl slotUpd (FILL, FILL) = (a, FILL) := by
-  simp [slotUpd]
-
-theorem slot_two (a b : Int) (ha : a ≠ FILL) : [a, b].foldl slotUpd (FILL, FILL) = (a, b) := by
-  simp [slotUpd, ha]
 
 /-- **face `f` is listed in `edge_face_connectivity[e]` iff `e` is one of `f`'s edges; a
     boundary edge is one face followed by padding, an interior edge two faces** -/
@@ -559,5 +515,483 @@ example : ∀ e, e < (Edges.edges [[0, 1, 2], [2, 1, 3], [4, 5, 6]]).length →
 /-- the specification is not trivially true: a face-face row listing a non-neighbour fails -/
 example : ¬ FaceFaceMemOK [[0, 1, 2], [1, 3, 4], [5, 6, 7]] [3, 3, 3] 8
     [[1, FILL, FILL], [0, FILL, FILL], [0, FILL, FILL]] := by decide
+
+end UxVerif.C03
+
+namespace UxVerif.C03
+open UxVerif UxVerif.Incidence
+
+/-! ### the fast decision procedures equal the specification's own Booleans -/
+
+theorem foldl_succ {α : Type} (l : List α) (c : Nat) : l.foldl (fun c _ => c + 1) c = c + l.length := by
+  induction l generalizing c with
+  | nil => simp
+  | cons a l ih => simp [ih]; omega
+
+theorem incCounts_length (FE : Table) (N : List Nat) (nEdge : Nat) :
+    (incCounts FE N nEdge).length = nEdge := by
+  unfold incCounts; rw [keyedFold_length]; simp
+
+/-- one pass computes every edge's incidence -/
+theorem incCounts_get (FE : Table) (N : List Nat) (nEdge e : Nat) (he : e < nEdge) :
+    (incCounts FE N nEdge)[e]? = some (incidence FE N e) := by
+  unfold incCounts incidence
+  rw [keyedFold_get]
+  simp [he]
+
+theorem incCounts_all (FE : Table) (N : List Nat) (nEdge : Nat) (P : Nat → Prop) :
+    (∀ c ∈ incCounts FE N nEdge, P c) ↔ ∀ e, e < nEdge → P (incidence FE N e) := by
+  constructor
+  · intro h e he
+    have hg := incCounts_get FE N nEdge e he
+    have hl : e < (incCounts FE N nEdge).length := by rw [incCounts_length]; exact he
+    rw [List.getElem?_eq_getElem hl] at hg
+    injection hg with hg
+    rw [← hg]; exact h _ (List.getElem_mem hl)
+  · intro h c hc
+    obtain ⟨e, he, hget⟩ := List.getElem_of_mem hc
+    have he' : e < nEdge := by rw [incCounts_length] at he; exact he
+    have hg := incCounts_get FE N nEdge e he'
+    rw [List.getElem?_eq_getElem he, hget] at hg
+    injection hg with hg
+    rw [hg]; exact h e he'
+
+/-- **`preFast` decides `Pre`** (no hypothesis) -/
+theorem preFast_eq (n : Nat) (t FE : Table) (N : List Nat) (nEdge : Nat) :
+    preFast n t FE N nEdge = decide (Pre n t FE N nEdge) := by
+  rw [Bool.eq_iff_iff, decide_eq_true_iff]
+  unfold preFast Pre
+  simp only [Bool.and_eq_true, decide_eq_true_eq, List.all_eq_true]
+  rw [incCounts_all FE N nEdge (fun c => 1 ≤ c ∧ c ≤ 2)]
+  constructor
+  · rintro ⟨⟨⟨a, b⟩, c⟩, d⟩; exact ⟨a, b, c, d⟩
+  · rintro ⟨a, b, c, d⟩; exact ⟨⟨⟨a, b⟩, c⟩, d⟩
+
+theorem valid_ofNat {nFace : Nat} {x : Int} (h0 : 0 ≤ x) (h1 : x < nFace) :
+    ∃ f, f < nFace ∧ x = Int.ofNat f :=
+  ⟨x.toNat, by omega, by simp only [Int.ofNat_eq_natCast]; omega⟩
+
+theorem validFace_iff (nFace : Nat) (x : Int) : validFace nFace x = true ↔ 0 ≤ x ∧ x < nFace := by
+  simp [validFace]
+
+theorem validFace_ofNat {nFace f : Nat} (h : f < nFace) : validFace nFace (Int.ofNat f) = true := by
+  rw [validFace_iff]; exact ⟨Int.natCast_nonneg f, Int.ofNat_lt.mpr h⟩
+
+/-! #### node_face -/
+
+theorem nodeRowOK_iff (nFace : Nat) (r mr : List Int)
+    (hmr : ∀ y ∈ mr, y = FILL ∨ (0 ≤ y ∧ y < nFace)) :
+    nodeRowOK nFace r mr = true ↔
+      (∀ x ∈ r, x = FILL ∨ (0 ≤ x ∧ x < nFace)) ∧
+      ∀ f, f < nFace → (Int.ofNat f ∈ r ↔ Int.ofNat f ∈ mr) := by
+  unfold nodeRowOK
+  simp only [Bool.and_eq_true, List.all_eq_true, Bool.or_eq_true, beq_iff_eq, validFace_iff,
+    List.contains_iff_mem]
+  constructor
+  · rintro ⟨h1, h2⟩
+    refine ⟨fun x hx => ?_, fun f hf => ⟨fun hm => ?_, fun hm => ?_⟩⟩
+    · rcases h1 x hx with h | h
+      · exact Or.inl h
+      · exact Or.inr h.1
+    · rcases h1 _ hm with h | h
+      · exact absurd h (ofNat_ne_fill f)
+      · exact h.2
+    · rcases h2 _ hm with h | h
+      · exact absurd h (ofNat_ne_fill f)
+      · exact h
+  · rintro ⟨h1, h2⟩
+    refine ⟨fun x hx => ?_, fun y hy => ?_⟩
+    · rcases h1 x hx with h | h
+      · exact Or.inl h
+      · obtain ⟨f, hf, rfl⟩ := valid_ofNat h.1 h.2
+        exact Or.inr ⟨h, (h2 f hf).mp hx⟩
+    · rcases hmr y hy with h | h
+      · exact Or.inl h
+      · obtain ⟨f, hf, rfl⟩ := valid_ofNat h.1 h.2
+        exact Or.inr ((h2 f hf).mpr hy)
+
+theorem rowAt_mem {T : Table} {i : Nat} (h : i < T.length) : rowAt T i ∈ T := by
+  simp [rowAt, List.getD, List.getElem?_eq_getElem h]
+
+theorem forall_rows_iff {T : Table} {k : Nat} (hl : T.length = k) (P : List Int → Prop) :
+    (∀ r ∈ T, P r) ↔ ∀ i, i < k → P (rowAt T i) := by
+  constructor
+  · intro h i hi; exact h _ (rowAt_mem (by omega))
+  · intro h r hr
+    obtain ⟨i, hi, hget⟩ := List.getElem_of_mem hr
+    have := h i (by omega)
+    rwa [Pipeline.rowAt_eq_getElem T i hi, hget] at this
+
+/-- **node_face clause**: comparing with the builder's table row by row decides `NodeFaceOK` -/
+theorem nodeFaceFast_eq {n : Nat} {t FE : Table} {N : List Nat} {nEdge : Nat}
+    (h : Pre n t FE N nEdge) (NF : Table) :
+    nodeFaceFast n t.length (nodeFace n t) NF = decide (NodeFaceOK n t NF) := by
+  obtain ⟨hMlen, hMiff, hMent⟩ := nodeFace_ok h
+  rw [Bool.eq_iff_iff, decide_eq_true_iff]
+  unfold nodeFaceFast NodeFaceOK
+  simp only [Bool.and_eq_true, beq_iff_eq, List.all_eq_true, List.mem_range]
+  constructor
+  · rintro ⟨hl, hrows⟩
+    have hr : ∀ v, v < n → _ := fun v hv =>
+      (nodeRowOK_iff t.length (rowAt NF v) (rowAt (nodeFace n t) v)
+        (hMent _ (rowAt_mem (by omega)))).mp (hrows v hv)
+    refine ⟨hl, fun v hv f hf => ?_, ?_⟩
+    · rw [(hr v hv).2 f hf]; exact hMiff v hv f hf
+    · rw [forall_rows_iff hl]; exact fun v hv => (hr v hv).1
+  · rintro ⟨hl, hiff, hent⟩
+    refine ⟨hl, fun v hv => ?_⟩
+    rw [nodeRowOK_iff _ _ _ (hMent _ (rowAt_mem (by omega)))]
+    refine ⟨(forall_rows_iff hl _).mp hent v hv, fun f hf => ?_⟩
+    rw [hiff v hv f hf]; exact (hMiff v hv f hf).symm
+
+/-! #### edge_face -/
+
+/-- the per-edge clause of `EdgeFaceOK` -/
+def EdgeRowOK (FE : Table) (N : List Nat) (e : Nat) (p : Int × Int) : Prop :=
+  p.1 ≠ FILL ∧ (p.2 = FILL ↔ incidence FE N e = 1) ∧
+  (∀ x ∈ [p.1, p.2], x = FILL ∨ (0 ≤ x ∧ x < FE.length)) ∧
+  ∀ f, f < FE.length →
+    ((Int.ofNat f = p.1 ∨ Int.ofNat f = p.2) ↔ Int.ofNat e ∈ faceEdgesOf FE N f)
+
+theorem edgeFaceOK_iff_rows (FE : Table) (N : List Nat) (nEdge : Nat) (EF : List (Int × Int)) :
+    EdgeFaceOK FE N nEdge EF ↔
+      EF.length = nEdge ∧ ∀ e, e < nEdge → EdgeRowOK FE N e (EF.getD e (FILL, FILL)) := Iff.rfl
+
+/-- given a row that meets the clause, another row meets it iff it is the same row or, for an
+    interior edge, the same two faces in the other order -/
+theorem pairOK_iff {FE : Table} {N : List Nat} {e : Nat} {m : Int × Int}
+    (hm : EdgeRowOK FE N e m) (p : Int × Int) :
+    pairOK p m = true ↔ EdgeRowOK FE N e p := by
+  obtain ⟨a, b⟩ := m
+  obtain ⟨p1, p2⟩ := p
+  obtain ⟨ha, hb, hent, hiff⟩ := hm
+  simp only at ha hb hent hiff
+  have ha' : 0 ≤ a ∧ a < FE.length := by
+    rcases hent a List.mem_cons_self with h | h
+    · exact absurd h ha
+    · exact h
+  obtain ⟨fa, hfa, rfl⟩ := valid_ofNat ha'.1 ha'.2
+  unfold pairOK
+  simp only [Bool.or_eq_true, Bool.and_eq_true, beq_iff_eq, bne_iff_ne, ne_eq, Prod.mk.injEq]
+  constructor
+  · rintro (⟨rfl, rfl⟩ | ⟨hbf, rfl, rfl⟩)
+    · exact ⟨ha, hb, hent, hiff⟩
+    · refine ⟨hbf, ?_, ?_, ?_⟩
+      · constructor
+        · intro h; exact absurd h ha
+        · intro h; exact absurd (hb.mpr h) hbf
+      · intro x hx
+        simp only [List.mem_cons, List.not_mem_nil, or_false] at hx
+        rcases hx with rfl | rfl
+        · exact hent _ (List.mem_cons_of_mem _ List.mem_cons_self)
+        · exact hent _ List.mem_cons_self
+      · intro f hf
+        rw [← hiff f hf]; exact Or.comm
+  · rintro ⟨hp1, hp2, hpent, hpiff⟩
+    simp only at hp1 hp2 hpent hpiff
+    have hp1' : 0 ≤ p1 ∧ p1 < FE.length := by
+      rcases hpent p1 List.mem_cons_self with h | h
+      · exact absurd h hp1
+      · exact h
+    obtain ⟨g1, hg1, rfl⟩ := valid_ofNat hp1'.1 hp1'.2
+    -- `fa` has the edge, so it is one of `p`'s faces; `g1` has the edge, so it is `a` or `b`
+    have hfaP := (hpiff fa hfa).mpr ((hiff fa hfa).mp (Or.inl rfl))
+    have hg1M := (hiff g1 hg1).mpr ((hpiff g1 hg1).mp (Or.inl rfl))
+    by_cases hbF : b = FILL
+    · -- boundary edge: both second slots are padding
+      subst hbF
+      have hp2F : p2 = FILL := hp2.mpr (hb.mp rfl)
+      subst hp2F
+      left
+      refine ⟨?_, rfl⟩
+      rcases hfaP with h | h
+      · exact h.symm
+      · exact absurd h (ofNat_ne_fill fa)
+    · have hp2F : p2 ≠ FILL := fun h => hbF (hb.mpr (hp2.mp h))
+      have hb' : 0 ≤ b ∧ b < FE.length := by
+        rcases hent b (List.mem_cons_of_mem _ List.mem_cons_self) with h | h
+        · exact absurd h hbF
+        · exact h
+      obtain ⟨fb, hfb, rfl⟩ := valid_ofNat hb'.1 hb'.2
+      have hp2' : 0 ≤ p2 ∧ p2 < FE.length := by
+        rcases hpent p2 (List.mem_cons_of_mem _ List.mem_cons_self) with h | h
+        · exact absurd h hp2F
+        · exact h
+      obtain ⟨g2, hg2, rfl⟩ := valid_ofNat hp2'.1 hp2'.2
+      have hfbP := (hpiff fb hfb).mpr ((hiff fb hfb).mp (Or.inr rfl))
+      have hg2M := (hiff g2 hg2).mpr ((hpiff g2 hg2).mp (Or.inr rfl))
+      rcases hg1M with h1 | h1 <;> rcases hg2M with h2 | h2 <;>
+        rcases hfaP with h3 | h3 <;> rcases hfbP with h4 | h4 <;>
+        first
+          | (left; exact ⟨by omega, by omega⟩)
+          | (right; exact ⟨hbF, by omega, by omega⟩)
+
+/-- **edge_face clause** -/
+theorem edgeFaceFast_eq {n : Nat} {t FE : Table} {N : List Nat} {nEdge : Nat}
+    (h : Pre n t FE N nEdge) (EF : List (Int × Int)) :
+    edgeFaceFast nEdge (edgeFace FE N nEdge) EF = decide (EdgeFaceOK FE N nEdge EF) := by
+  obtain ⟨_, hM⟩ := (edgeFaceOK_iff_rows _ _ _ _).mp (edgeFace_ok h)
+  rw [Bool.eq_iff_iff, decide_eq_true_iff, edgeFaceOK_iff_rows]
+  unfold edgeFaceFast
+  simp only [Bool.and_eq_true, beq_iff_eq, List.all_eq_true, List.mem_range]
+  constructor
+  · rintro ⟨hl, hrows⟩
+    exact ⟨hl, fun e he => (pairOK_iff (hM e he) _).mp (hrows e he)⟩
+  · rintro ⟨hl, hrows⟩
+    exact ⟨hl, fun e he => (pairOK_iff (hM e he) _).mpr (hrows e he)⟩
+
+/-! #### hole_edge_indices -/
+
+/-- **holes clause**: same set as the builder's list, no repetition -/
+theorem holesFast_eq {FE : Table} {N : List Nat} {nEdge : Nat} {Hm : List Nat}
+    (hM : HolesOK FE N nEdge Hm) (H : List Nat) :
+    holesFast Hm H = decide (HolesOK FE N nEdge H) := by
+  obtain ⟨_, hMlt, hMiff⟩ := hM
+  rw [Bool.eq_iff_iff, decide_eq_true_iff]
+  unfold holesFast HolesOK
+  simp only [Bool.and_eq_true, decide_eq_true_eq, List.all_eq_true, List.contains_iff_mem]
+  constructor
+  · rintro ⟨⟨hnd, h1⟩, h2⟩
+    refine ⟨hnd, fun e he => hMlt e (h1 e he), fun e he => ⟨fun hm => ?_, fun hi => ?_⟩⟩
+    · exact (hMiff e he).mp (h1 e hm)
+    · exact h2 e ((hMiff e he).mpr hi)
+  · rintro ⟨hnd, hlt, hiff⟩
+    refine ⟨⟨hnd, fun e he => ?_⟩, fun e he => ?_⟩
+    · exact (hMiff e (hlt e he)).mpr ((hiff e (hlt e he)).mp he)
+    · exact (hiff e (hMlt e he)).mpr ((hMiff e (hMlt e he)).mp he)
+
+/-! #### face_face -/
+
+theorem skipEntry_ofNat {nFace f g : Nat} (hg : g < nFace) (hfg : f ≠ g) :
+    skipEntry nFace f (Int.ofNat g) = false := by
+  unfold skipEntry
+  rw [validFace_ofNat hg]
+  have : (Int.ofNat g == Int.ofNat f) = false := by
+    rw [beq_eq_false_iff_ne]; intro hh; exact hfg (by have := Int.ofNat.inj hh; omega)
+  rw [this]; rfl
+
+theorem skipEntry_false {nFace f : Nat} {x : Int} (h : skipEntry nFace f x = false) :
+    ∃ g, g < nFace ∧ f ≠ g ∧ x = Int.ofNat g := by
+  unfold skipEntry at h
+  simp only [Bool.or_eq_false_iff, Bool.not_eq_false', beq_eq_false_iff_ne, ne_eq] at h
+  obtain ⟨h1, h2⟩ := h
+  rw [validFace_iff] at h2
+  obtain ⟨g, hg, rfl⟩ := valid_ofNat h2.1 h2.2
+  exact ⟨g, hg, fun hh => h1 (by rw [hh]), rfl⟩
+
+theorem ffMemRowOK_iff (nFace f : Nat) (r mr : List Int) :
+    ffMemRowOK nFace f r mr = true ↔
+      ∀ g, g < nFace → f ≠ g → (Int.ofNat g ∈ r ↔ Int.ofNat g ∈ mr) := by
+  unfold ffMemRowOK
+  simp only [Bool.and_eq_true, List.all_eq_true, Bool.or_eq_true, List.contains_iff_mem]
+  constructor
+  · rintro ⟨h1, h2⟩ g hg hfg
+    have hs := skipEntry_ofNat hg hfg
+    constructor
+    · intro hm
+      rcases h1 _ hm with h | h
+      · rw [hs] at h; cases h
+      · exact h
+    · intro hm
+      rcases h2 _ hm with h | h
+      · rw [hs] at h; cases h
+      · exact h
+  · intro h
+    refine ⟨fun x hx => ?_, fun y hy => ?_⟩
+    · cases hs : skipEntry nFace f x with
+      | true => exact Or.inl rfl
+      | false =>
+        obtain ⟨g, hg, hfg, rfl⟩ := skipEntry_false hs
+        exact Or.inr ((h g hg hfg).mp hx)
+    · cases hs : skipEntry nFace f y with
+      | true => exact Or.inl rfl
+      | false =>
+        obtain ⟨g, hg, hfg, rfl⟩ := skipEntry_false hs
+        exact Or.inr ((h g hg hfg).mpr hy)
+
+theorem ffCountRowOK_iff (nFace f : Nat) (r mr : List Int) :
+    ffCountRowOK nFace f r mr = true ↔
+      ∀ g, g < nFace → f ≠ g → r.count (Int.ofNat g) = mr.count (Int.ofNat g) := by
+  unfold ffCountRowOK
+  simp only [List.all_eq_true, Bool.or_eq_true, beq_iff_eq, List.mem_append]
+  constructor
+  · intro h g hg hfg
+    by_cases hm : Int.ofNat g ∈ r ∨ Int.ofNat g ∈ mr
+    · rcases h _ hm with h1 | h1
+      · rw [skipEntry_ofNat hg hfg] at h1; cases h1
+      · exact h1
+    · have h1 : Int.ofNat g ∉ r := fun hh => hm (Or.inl hh)
+      have h2 : Int.ofNat g ∉ mr := fun hh => hm (Or.inr hh)
+      rw [List.count_eq_zero_of_not_mem h1, List.count_eq_zero_of_not_mem h2]
+  · intro h x _
+    cases hs : skipEntry nFace f x with
+    | true => exact Or.inl rfl
+    | false =>
+      obtain ⟨g, hg, hfg, rfl⟩ := skipEntry_false hs
+      exact Or.inr (h g hg hfg)
+
+/-- **face_face, membership clause** -/
+theorem faceFaceMemFast_eq {FE : Table} {N : List Nat} {nEdge : Nat} {M : Table}
+    (hM : FaceFaceMemOK FE N nEdge M) (FF : Table) :
+    faceFaceMemFast FE.length M FF = decide (FaceFaceMemOK FE N nEdge FF) := by
+  obtain ⟨_, _, hMiff⟩ := hM
+  rw [Bool.eq_iff_iff, decide_eq_true_iff]
+  unfold faceFaceMemFast FaceFaceMemOK
+  simp only [Bool.and_eq_true, beq_iff_eq, decide_eq_true_eq, List.all_eq_true, List.mem_range,
+    ffMemRowOK_iff]
+  constructor
+  · rintro ⟨⟨hl, hent⟩, hrows⟩
+    exact ⟨hl, hent, fun f hf g hg hfg => by rw [hrows f hf g hg hfg]; exact hMiff f hf g hg hfg⟩
+  · rintro ⟨hl, hent, hiff⟩
+    exact ⟨⟨hl, hent⟩, fun f hf g hg hfg => by rw [hiff f hf g hg hfg]; exact (hMiff f hf g hg hfg).symm⟩
+
+/-- **face_face, count clause** -/
+theorem faceFaceCountFast_eq {FE : Table} {N : List Nat} {nEdge : Nat} {M : Table}
+    (hM : FaceFaceCountOK FE N nEdge M) (FF : Table) :
+    faceFaceCountFast FE.length M FF = decide (FaceFaceCountOK FE N nEdge FF) := by
+  rw [Bool.eq_iff_iff, decide_eq_true_iff]
+  unfold faceFaceCountFast FaceFaceCountOK
+  simp only [List.all_eq_true, List.mem_range, ffCountRowOK_iff]
+  constructor
+  · intro hrows f hf g hg hfg
+    rw [hrows f hf g hg hfg]; exact hM f hf g hg hfg
+  · intro hcnt f hf g hg hfg
+    rw [hcnt f hf g hg hfg]; exact (hM f hf g hg hfg).symm
+
+/-! #### all clauses -/
+
+/-- **the fast procedure reports exactly the clauses the specification's own decision procedure
+    reports**, for every input and every candidate output (no hypothesis: outside `Pre` it falls
+    back on the specification itself) -/
+theorem failingFast_eq (n : Nat) (t FE : Table) (N : List Nat) (nEdge : Nat) (o : Out) :
+    failingFast n t FE N nEdge o = failing n t FE N nEdge o := by
+  unfold failingFast
+  split
+  · rename_i hp
+    rw [preFast_eq, decide_eq_true_iff] at hp
+    obtain ⟨_, _, hmem, hcnt, hholes⟩ := build_meets_spec (w := 0) hp
+    have e1 := nodeFaceFast_eq hp o.nodeFace
+    have e2 := edgeFaceFast_eq hp o.edgeFace
+    have e3 := faceFaceMemFast_eq hmem o.faceFace
+    have e4 := faceFaceCountFast_eq hcnt o.faceFace
+    have e5 := holesFast_eq hholes o.holes
+    simp only [build] at e3 e4 e5
+    simp only [failing, build, e1, e2, e3, e4, e5, decide_eq_true_eq]
+  · rfl
+
+/-- **`specFast_eq_spec`**: on every input meeting `Pre`, for EVERY candidate output, the fast
+    procedure returns the Boolean of the specification -/
+theorem specFast_eq_spec {n : Nat} {t FE : Table} {N : List Nat} {nEdge : Nat}
+    (hp : Pre n t FE N nEdge) (o : Out) :
+    specFast n t FE N nEdge o = decide (Spec n t FE N nEdge o) := by
+  obtain ⟨_, _, hmem, hcnt, hholes⟩ := build_meets_spec (w := 0) hp
+  have e1 := nodeFaceFast_eq hp o.nodeFace
+  have e2 := edgeFaceFast_eq hp o.edgeFace
+  have e3 := faceFaceMemFast_eq hmem o.faceFace
+  have e4 := faceFaceCountFast_eq hcnt o.faceFace
+  have e5 := holesFast_eq hholes o.holes
+  simp only [build] at e3 e4 e5
+  rw [Bool.eq_iff_iff, decide_eq_true_iff]
+  simp only [specFast, Spec, build, e1, e2, e3, e4, e5, Bool.and_eq_true, decide_eq_true_eq]
+  constructor
+  · rintro ⟨⟨⟨⟨a, b⟩, c⟩, d⟩, e⟩; exact ⟨a, b, c, d, e⟩
+  · rintro ⟨a, b, c, d, e⟩; exact ⟨⟨⟨⟨a, b⟩, c⟩, d⟩, e⟩
+
+/-! non-vacuity: the procedures run on the three-triangle example; a wrong table is reported with
+    the right clause names, and the general theorem instantiates -/
+example : preFast 7 [[0, 1, 2], [2, 1, 3], [4, 5, 6]] [[0, 1, 2], [1, 3, 4], [5, 6, 7]] [3, 3, 3] 8 = true := by
+  decide
+/-- a non-manifold input (three faces on edge 0) is rejected by the one-pass count -/
+example : preFast 5 [[0, 1, 2], [0, 1, 3], [0, 1, 4]] [[0, 1, 2], [0, 3, 4], [0, 5, 6]] [3, 3, 3] 7 = false := by
+  decide
+example : failingFast 7 [[0, 1, 2], [2, 1, 3], [4, 5, 6]] [[0, 1, 2], [1, 3, 4], [5, 6, 7]] [3, 3, 3] 8
+    (build 7 3 [[0, 1, 2], [2, 1, 3], [4, 5, 6]] [[0, 1, 2], [1, 3, 4], [5, 6, 7]] [3, 3, 3] 8) = [] := by decide
+/-- a permuted row, padding in front, the two faces of the interior edge swapped, holes in another
+    order: all accepted (the specification leaves them free) -/
+example : specFast 7 [[0, 1, 2], [2, 1, 3], [4, 5, 6]] [[0, 1, 2], [1, 3, 4], [5, 6, 7]] [3, 3, 3] 8
+    { nodeFace := [[0, FILL], [1, 0], [FILL, 0, 1], [1], [2, FILL], [2, FILL], [FILL, 2]],
+      edgeFace := [(0, FILL), (1, 0), (0, FILL), (1, FILL), (1, FILL), (2, FILL), (2, FILL), (2, FILL)],
+      faceFace := [[FILL, 1], [0, FILL, FILL], []],
+      holes := [7, 6, 5, 4, 3, 2, 0] } = true := by decide
+/-- a neighbour credited to the wrong face (the flatten-and-sort test of the suite cannot see it) -/
+example : failingFast 7 [[0, 1, 2], [2, 1, 3], [4, 5, 6]] [[0, 1, 2], [1, 3, 4], [5, 6, 7]] [3, 3, 3] 8
+    { nodeFace := [[0, FILL], [0, 1], [0, 1], [1, FILL], [2, FILL], [2, FILL], [2, FILL]],
+      edgeFace := [(0, FILL), (0, 1), (0, FILL), (1, FILL), (1, FILL), (2, FILL), (2, FILL), (2, FILL)],
+      faceFace := [[1, FILL, FILL], [FILL, FILL, FILL], [0, FILL, FILL]],
+      holes := [0, 2, 3, 4, 5, 6, 7] } = ["face_face_mem", "face_face_count"] := by decide
+example := specFast_eq_spec (n := 7) (t := [[0, 1, 2], [2, 1, 3], [4, 5, 6]])
+    (FE := [[0, 1, 2], [1, 3, 4], [5, 6, 7]]) (N := [3, 3, 3]) (nEdge := 8) (by decide)
+
+end UxVerif.C03
+
+namespace UxVerif.C03
+open UxVerif UxVerif.Incidence
+
+/-! ### sub-meshes: C03's precondition is inherited (incidence transport, `Lemmas/C03Transport.lean`)
+
+  `SubMesh FE N FE' N' nEdge' idx es ren`: sub-face `i` is source face `idx[i]` (`idx` duplicate-free),
+  sub-edge `k` is source edge `es[k]` (`es` duplicate-free, exactly the real edges of the selected
+  faces), face-edge rows renumbered by `ren`.  Nothing is assumed about the order of `idx` / `es`. -/
+
+section Sub
+variable {FE FE' : Table} {N N' : List Nat} {nEdge' : Nat} {idx : List Nat} {es : List Int} {ren : Int → Int}
+
+/-- **every face-slot incidence of a sub-edge comes from a distinct incidence of its source edge** -/
+theorem sub_incidence_le (hS : SubMesh FE N FE' N' nEdge' idx es ren) {k : Nat} (hk : k < nEdge') :
+    incidence FE' N' k ≤ incidence FE N (es[k]'(hS.es_len ▸ hk)).toNat :=
+  incidence_sub_le hS hk
+
+/-- **manifoldness (every edge in at most two face slots) is inherited by sub-meshes** -/
+theorem sub_manifold {nEdge : Nat} (hS : SubMesh FE N FE' N' nEdge' idx es ren)
+    (hval : ∀ f, f < FE.length → ∀ e ∈ faceEdgesOf FE N f, 0 ≤ e ∧ e < nEdge)
+    (hman : ∀ e, e < nEdge → incidence FE N e ≤ 2) :
+    ∀ k, k < nEdge' → incidence FE' N' k ≤ 2 :=
+  manifold_sub_of_valid hS hval hman
+
+/-- **`Pre` of a sub-mesh follows from `Pre` of its source**; only the facts about the sub-mesh's own
+    face-node table remain to be supplied -/
+theorem sub_pre {n n' nEdge : Nat} {t t' : Table}
+    (hP : Pre n t FE N nEdge) (hS : SubMesh FE N FE' N' nEdge' idx es ren)
+    (hlen : FE'.length = t'.length)
+    (hnodes : ∀ f, f < t'.length → ∀ v ∈ real (rowAt t' f), 0 ≤ v ∧ v < n') :
+    Pre n' t' FE' N' nEdge' :=
+  pre_sub hP hS hlen hnodes
+
+/-- **"the two faces of an edge are distinct" is inherited by sub-meshes** -/
+theorem sub_distinct_faces {n nEdge : Nat} {t : Table}
+    (hP : Pre n t FE N nEdge) (hS : SubMesh FE N FE' N' nEdge' idx es ren)
+    (hD : ∀ p ∈ edgeFace FE N nEdge, p.1 ≠ p.2) :
+    ∀ p ∈ edgeFace FE' N' nEdge', p.1 ≠ p.2 :=
+  distinctFaces_sub hP hS hD
+
+/-- an edge gets the same face in both slots iff that face lists the edge twice -/
+theorem distinct_faces_iff_rows_nodup {n nEdge : Nat} {t : Table} (hP : Pre n t FE N nEdge) :
+    (∀ p ∈ edgeFace FE N nEdge, p.1 ≠ p.2) ↔ (∀ f, f < FE.length → (faceEdgesOf FE N f).Nodup) :=
+  distinctFaces_iff_rows_nodup hP
+
+/-- **C03 on every sub-mesh of a mesh meeting `Pre`**: the incidence tables built on the sub-mesh's own
+    tables satisfy the specification — no precondition on the subset is left to be checked at run time -/
+theorem sub_meets_spec {n n' nEdge : Nat} {t t' : Table} (w : Nat)
+    (hP : Pre n t FE N nEdge) (hS : SubMesh FE N FE' N' nEdge' idx es ren)
+    (hlen : FE'.length = t'.length)
+    (hnodes : ∀ f, f < t'.length → ∀ v ∈ real (rowAt t' f), 0 ≤ v ∧ v < n') :
+    Spec n' t' FE' N' nEdge' (build n' w t' FE' N' nEdge') :=
+  build_meets_spec (pre_sub hP hS hlen hnodes)
+
+end Sub
+
+/-- non-vacuity: faces 2 and 0 (in that order) of the three-triangle example; the hypotheses are
+    satisfiable and the conclusion is the specification of the sub-mesh's tables -/
+example : Spec 6 [[3, 4, 5], [0, 1, 2]] [[3, 4, 5], [0, 1, 2]] [3, 3] 6
+    (build 6 3 [[3, 4, 5], [0, 1, 2]] [[3, 4, 5], [0, 1, 2]] [3, 3] 6) := by
+  let ren : Int → Int := fun x => if x = 0 then 0 else if x = 1 then 1 else if x = 2 then 2
+    else if x = 5 then 3 else if x = 6 then 4 else if x = 7 then 5 else FILL
+  have hS : SubMesh [[0, 1, 2], [1, 3, 4], [5, 6, 7]] [3, 3, 3] [[3, 4, 5], [0, 1, 2]] [3, 3] 6 [2, 0]
+      [0, 1, 2, 5, 6, 7] ren :=
+    { faces := by decide, idx_nodup := by decide, idx_lt := by decide, es_len := by decide,
+      es_nodup := by decide, rows := by decide, ren_es := by decide, covered := by decide,
+      used := by decide }
+  exact sub_meets_spec (n := 7) (t := [[0, 1, 2], [2, 1, 3], [4, 5, 6]]) (nEdge := 8) 3 (by decide) hS
+    (by decide) (by decide)
 
 end UxVerif.C03
